@@ -7,7 +7,9 @@ walk_descents/evaluate_descent through hook H1 and the deterministic scheduler h
 real threads' sequence of pthread operations must be the one the model predicts and the result must equal both
 the model's and a sequential reference computed from the same numbers; (b) oracle = the property itself:
 free-running walk_descents, nnls_normal_block3 and spline fits under OMP_NUM_THREADS in {1,2,3,4,8,16,32}
-must terminate (timeout) with bitwise identical results; (c) thorough: the same free-running under TSan."""
+must terminate (timeout) with bitwise identical results; (c) thorough: the same free-running under TSan;
+(d) test of the termination bound B0(N, n_alpha) of C12_terminates_from_init: against the exact longest schedule of the
+extracted model for small configurations, and on every generated schedule."""
 import collections, glob, json, os, re, subprocess, sys, time
 from common import *
 
@@ -16,7 +18,7 @@ ASSUMPTIONS = [
     "pthread mutex / condition variable / create / join semantics as in POSIX (written out in Handshake.v: step, spurious); sequential consistency for race-free executions",
     "the worker's numeric computation is abstracted to 'worker j, told to use trial step a, leaves outputs for a'; residual order enters only through the abstract relation lt",
     "a model step is one pthread call plus adjacent straight-line code under an unchanged mutex state; the j-loops under the mutex and the selection loop are single steps whose access sets are the union (sound for race freedom because the union is what is checked)",
-    "OS fairness is not modelled: theorems say some thread can always move (no deadlock) and every schedule is finite without spurious wake-ups; sched_setaffinity failures are ignored",
+    "OS fairness is not modelled: theorems say some thread can always move (no deadlock) and that an execution makes at most B0(N, n_alpha) thread steps plus two per spurious wake-up (so every maximal execution with finitely many spurious wake-ups returns); that the OS eventually runs some enabled thread and delivers only finitely many spurious wake-ups is assumed; sched_setaffinity failures are ignored",
     "Handshake.v tied to cholesky_solve.c by forcing model-generated schedules on the real code on this run's cases (operation sequence + result compared exactly)",
 ]
 TRUSTED_EXTRA = [
@@ -150,6 +152,33 @@ def model_requests(mexe, reqs):
     return out
 
 # ---------------------------------------------------------------------------------------------- checks
+def B0(N, na):
+    """the bound of C12_terminates_from_init, as written out by theorem C12_B0 (Properties_C12.v), N >= 1, na >= 1;
+    B0(2,3) = 71 is Example C12_ex_bound"""
+    return (6 * N + 6) + ((na + N - 1) // N) * (6 + 2 * N) + na * (7 + 2 * N)
+assert B0(2, 3) == 71
+
+def check_termination_bound(mexe, configs, out, cov):
+    """TEST of C12_terminates_from_init on the extracted model: the exact length of the longest schedule of thread steps from the
+    initial state (memoised DFS of the step-only graph, which must be acyclic) must not exceed B0(N, n_alpha).  Residual order:
+    strictly increasing (no trial step is accepted before the last one: every block runs — the longest case)."""
+    reqs = ["L%d_%d %d %d 1 %s longest" % (N, na, N, na, ",".join(map(str, range(na)))) for (N, na) in configs]
+    p = subprocess.run([mexe], input="\n".join(reqs) + "\n", stdout=subprocess.PIPE, stderr=subprocess.PIPE, text=True, timeout=900)
+    table = {}
+    for l in p.stdout.split("\n"):
+        if not l.startswith("longest "):
+            continue
+        f = l.split()
+        N, na = map(int, f[1][1:].split("_"))
+        table["N=%d,n_alpha=%d" % (N, na)] = {"longest": f[2], "B0": B0(N, na), "states": int(f[4])}
+        if f[2] == "cycle" or int(f[2]) > B0(N, na):
+            out.violation("C12:model:termination-bound", "the model's step-only graph for N=%d n_alpha=%d %s (C12_terminates would be false)"
+                          % (N, na, "has a cycle" if f[2] == "cycle" else "has a schedule of %s steps > B0 = %d" % (f[2], B0(N, na))),
+                          {"kind": "model", "request": [r for r in reqs if r.startswith(f[1] + " ")][0], "schedule": l.partition("|")[2].strip()})
+    if len(table) != len(configs):
+        out.violation("C12:model:termination-bound", "the model driver did not answer every `longest` request", {"kind": "model", "no_failing_input_found": True,
+                      "broken": "extract/handshake_driver longest", "stderr": p.stderr[-500:]})
+    cov["longest_schedule_vs_bound"] = table
 def check_forced(exe, mexe, datas, plan, out, cov, fixed_flag="1"):
     """plan: list of (data_index, N, mode_request_suffix).  Forces every generated schedule."""
     # phase A: sequential reference for each data set (free-running N=1 also serves as the first oracle run)
@@ -180,6 +209,13 @@ def check_forced(exe, mexe, datas, plan, out, cov, fixed_flag="1"):
         for (k, end, chosen, feas, steps) in mres[rid]["S"]:
             cid = "%s_%d" % (rid, k)
             sched, trace = project(steps)
+            # C12_terminates_from_init on this very schedule: #thread steps <= B0 + 2 * #spurious wake-ups
+            nspur = sum(1 for x in steps if x.endswith(":X"))
+            slack = B0(N, na) + 2 * nspur - (len(steps) - nspur)
+            cov["min_slack_to_termination_bound"] = min(cov.get("min_slack_to_termination_bound", slack), slack)
+            if slack < 0:
+                out.violation("C12:model:termination-bound", "a model schedule for N=%d n_alpha=%d has %d thread steps and %d spurious wake-ups: more than B0 + 2*spurious = %d"
+                              % (N, na, len(steps) - nspur, nspur, B0(N, na) + 2 * nspur), {"kind": "model", "N": N, "n_alpha": na, "model_steps": steps})
             lines.append(case_line(cid, datas[di], N, sched))
             expect[cid] = (rid, end, chosen, feas, trace, sched, steps)
             hist["N=%d,blocks=%d" % (N, -(-na // N))] += 1
@@ -443,6 +479,8 @@ def run(info, out):
         N = rng.choice([1, 1, 2, 2, 3, 3, 4, 5, 9])
         plan.append((len(datas) - 1, N, "rand %d %d %d" % (40 if thorough else 16, rng.below(1 << 20), rng.choice([0, 5, 15]))))
     refs = check_forced(exe, mexe, datas, plan, out, cov)
+    #    (c) termination bound against the exact longest schedule of small configurations (model only)
+    check_termination_bound(mexe, [(1, 2), (1, 3), (1, 4), (2, 2), (2, 3), (2, 4), (2, 5), (3, 3), (3, 4)] + ([(3, 6), (4, 4), (4, 5)] if thorough else []), out, cov)
 
     # 3. the property itself on free-running threads, every thread count
     nfree = check_free(exe, datas[len(small):][: (60 if thorough else 16) * boost] + datas[:len(small)], THREADS, 6 if thorough else 3, out, cov)
